@@ -393,3 +393,41 @@ def replay_group_alter(obligation, model, meta):
             return {'confirmed': True, 'inputs': {'idx': idx, 'value': values},
                     'observed': 'devices received %r, expected %r' % (got, want), 'native_cmd': 'GroupBase.alter(src, idx, value) on a two-model group'}
     return {'confirmed': False, 'tried': 5}
+
+
+
+def replay_model_set(obligation, model, meta):
+    """native run of the real Model.set on a stub model after dynamic initialisation: a parameter that is the time constant of two
+    states, set for one device and for several devices at once -- the parameter, dae.Tf at every such state's address of every
+    addressed device, and the matching Teye diagonal entries all take the new values; nothing else moves"""
+    from types import SimpleNamespace
+    import numpy as np
+    from kvxopt import spdiag, matrix
+    from andes.core.model.model import Model
+    from contracts.packutil import Stub
+    for idx, value in ((2, 0.5), ([1, 3], [0.7, 0.9]), ([3, 1, 2], [1.5, 1.6, 1.7])):
+        T = SimpleNamespace(v=np.array([0.1, 0.2, 0.3]), vin=np.array([0.1, 0.2, 0.3]))
+        other = SimpleNamespace(v=np.array([9.0, 9.0, 9.0]))
+        s0 = SimpleNamespace(t_const=T, a=np.array([0, 1, 2]))
+        s1 = SimpleNamespace(t_const=T, a=np.array([5, 6, 7]))
+        s2 = SimpleNamespace(t_const=other, a=np.array([3, 4, 8]))
+        Tf0 = np.array([0.1, 0.2, 0.3, 9.0, 9.0, 0.1, 0.2, 0.3, 9.0])
+        dae = SimpleNamespace(Tf=Tf0.copy())
+        tds = SimpleNamespace(Teye=spdiag(Tf0.tolist()), initialized=True)
+        uid = {1: 0, 2: 1, 3: 2}
+        stub = Stub(_cls=Model, states={'s0': s0, 's1': s1, 's2': s2}, system=SimpleNamespace(dae=dae, TDS=tds), T=T, class_name='M')
+        stub.idx2uid = lambda i: [uid[k] for k in i] if isinstance(i, (list, tuple, np.ndarray)) else uid[i]
+        Model.set(stub, 'T', idx, 'v', value)
+        want = Tf0.copy()
+        for i, v in zip(idx if isinstance(idx, list) else [idx], value if isinstance(value, list) else [value]):
+            for st in (s0, s1):
+                want[st.a[uid[i]]] = v
+        teye = np.array([tds.Teye[k, k] for k in range(9)])
+        pv = np.array([0.1, 0.2, 0.3])
+        for i, v in zip(idx if isinstance(idx, list) else [idx], value if isinstance(value, list) else [value]):
+            pv[uid[i]] = v
+        if not (np.array_equal(dae.Tf, want) and np.array_equal(teye, want) and np.array_equal(T.v, pv)):
+            return {'confirmed': True, 'inputs': {'idx': idx, 'value': value, 'states sharing the time constant': ['s0 @ 0..2', 's1 @ 5..7']},
+                    'observed': 'param %r, dae.Tf %r, Teye diagonal %r; expected Tf = Teye = %r' % (T.v.tolist(), dae.Tf.tolist(), teye.tolist(), want.tolist()),
+                    'native_cmd': "Model.set(stub, 'T', idx, 'v', value)"}
+    return {'confirmed': False, 'tried': 3}
